@@ -62,28 +62,32 @@ def run(chk, facts_dir, tier):
     # R25.4 the satisfied/not-satisfied decision is made on the raw versions
     chk.rule("R25.4", "EXACT DECISION: in gap_from the comparison that separates `None` from Ahead/Behind for (Exact(e), Current(c)) is made on e and c themselves, not on "
                       "values derived by saturating/wrapping arithmetic (not injective at the u64 boundary), and the distances are the plain differences of those operands")
-    gev = Ev(prog, gb)
-    cmps = [(bi, t) for bi, t in gb.calls() if (gb.callee_decl(t) or "").endswith("::cmp") or (gb.callee(t) or "").endswith("::cmp")]
-    eqs = [(bi, t) for bi, t in gb.calls() if (gb.callee_decl(t) or "").rsplit("::", 1)[-1] in ("eq", "ne", "lt", "le", "gt", "ge")]
     n_cmp = 0
-    for bi, t in cmps + eqs:
-        n_cmp += 1
-        bad = []
-        for a in t["args"]:
-            term = gev.operand(a, (bi, "T"))
-            if any(isinstance(x, tuple) and x and (x[0] in ("call", "bin")) for x in walk(term)):
-                bad.append(show(term)[:50])
-        if bad:
-            chk.fail("R25.4", gb.path, "derived-operands", "gap_from decides on derived values (%s) instead of the raw expected/current versions: two different versions can compare "
-                     "equal at the u64 boundary, so is_satisfied_by holds for an append the store rejects" % bad, gb, t["line"])
-        else:
-            chk.ok("R25.4", "gap_from compares the raw versions", gb.where(t["line"]))
+    # gap_from and the private helpers it calls (the Exact/Current comparison may live in `fn exact_gap(expected, current)`)
+    gbodies = [gb] + [prog.bodies[c] for c in sorted({(gb.callee(t) or gb.callee_decl(t) or "") for _, t in gb.calls()}) if c.startswith(P) and c in prog.bodies and c != gb.path]
     from ..gate import comparisons as _cmps
-    for c in _cmps(prog, gb, gev):
-        if c["stmt"] != "T":
+    for gbx in gbodies:
+        chk.analysed(gbx.path)
+        gev = Ev(prog, gbx)
+        cmps = [(bi, t) for bi, t in gbx.calls() if (gbx.callee_decl(t) or "").endswith("::cmp") or (gbx.callee(t) or "").endswith("::cmp")]
+        eqs = [(bi, t) for bi, t in gbx.calls() if (gbx.callee_decl(t) or "").rsplit("::", 1)[-1] in ("eq", "ne", "lt", "le", "gt", "ge")]
+        for bi, t in cmps + eqs:
             n_cmp += 1
-            if any(isinstance(x, tuple) and x and x[0] in ("call", "bin") for x in list(walk(c["a"])) + list(walk(c["b"]))):
-                chk.fail("R25.4", gb.path, "derived-operands", "gap_from decides on derived values instead of the raw versions", gb, c["line"])
+            bad = []
+            for a in t["args"]:
+                term = gev.operand(a, (bi, "T"))
+                if any(isinstance(x, tuple) and x and (x[0] in ("call", "bin")) for x in walk(term)):
+                    bad.append(show(term)[:50])
+            if bad:
+                chk.fail("R25.4", gb.path, "derived-operands", "gap_from decides on derived values (%s) instead of the raw expected/current versions: two different versions can compare "
+                         "equal at the u64 boundary, so is_satisfied_by holds for an append the store rejects" % bad, gbx, t["line"])
+            else:
+                chk.ok("R25.4", "gap_from compares the raw versions", gbx.where(t["line"]))
+        for c in _cmps(prog, gbx, gev):
+            if c["stmt"] != "T":
+                n_cmp += 1
+                if any(isinstance(x, tuple) and x and x[0] in ("call", "bin") for x in list(walk(c["a"])) + list(walk(c["b"]))):
+                    chk.fail("R25.4", gb.path, "derived-operands", "gap_from decides on derived values instead of the raw versions", gbx, c["line"])
     chk.floor("R25.4", n_cmp, 1)
 
     # R25.3 inverse shapes
@@ -94,6 +98,13 @@ def run(chk, facts_dir, tier):
         if s["rv"]["k"] == "agg" and s["rv"]["ak"].endswith("ExpectedVersion::Exact"):
             base, off = linear(fev.operand(s["rv"]["ops"][0], (i, j)))
             if strip(base)[0] == "param" and off == -1:
+                ok_f = True
+            # `match v.checked_sub(1) { Some(p) => Exact(p), None => Empty }`: the Some payload of checked_sub(v, 1)
+            sb_ = strip(base)
+            while sb_[0] in ("field", "variant"):
+                sb_ = strip(sb_[1])
+            if off == 0 and sb_[0] == "call" and sb_[1].endswith("::checked_sub") and len(sb_[2]) == 2 and strip(sb_[2][0])[0] == "param" \
+                    and strip(sb_[2][1])[0] == "const" and strip(sb_[2][1])[2] == 1:
                 ok_f = True
     empties = [s for i, j, s in fb.assigns() if s["rv"]["k"] == "agg" and s["rv"]["ak"].endswith("ExpectedVersion::Empty")]
     if ok_f and empties:
